@@ -221,7 +221,9 @@ func (g *engine) addCaseRows(r *lib.Rng, types []octosql.Type, x *lx, family str
 			cf.Count("skipped_repeat_hazard")
 			continue
 		}
+		exprh.StartRecording()
 		obs := exprh.Eval(ex, [][]octosql.Value{row})
+		calls := exprh.StopRecording()
 		runsJS = append(runsJS, map[string]interface{}{"row": lib.ValuesJSON(row), "observed": obs.JSON()})
 		if obs.Kind == 0 {
 			valueSeen = true
@@ -241,7 +243,7 @@ func (g *engine) addCaseRows(r *lib.Rng, types []octosql.Type, x *lx, family str
 		if clock && obs.Kind == 0 {
 			continue // reads the wall clock: checked against its type above, not replayed in the model
 		}
-		runs = append(runs, fmt.Sprintf("(%s, %s)", exprh.CoqFrames([][]octosql.Value{row}), obs.Coq()))
+		runs = append(runs, fmt.Sprintf("(%s, %s, %s)", exprh.CoqFrames([][]octosql.Value{row}), exprh.CoqCalls(calls), obs.Coq()))
 	}
 	js["runs"] = runsJS
 	idx := cf.Add(fmt.Sprintf("(C8 %s %s (TcOk %s) [%s])", envCoq, leCoq, peCoq, strings.Join(runs, "; ")), js, valueSeen)
